@@ -913,3 +913,22 @@ def order_insensitive_consumers(ctx: Ctx):
                          'processed depends on set iteration order, i.e. on the hash seed')
     if n == 0:
         yield ctx.ob('ORDER-INSENSITIVE-CONSUMERS', True, None, None, 'no loop over an unordered collection found', construct='none', path='labtech/lab.py')
+
+
+@rule('C14.START-BEFORE-SUBMIT', ['C14', 'C04', 'C11', 'C03'])
+def start_before_submit(ctx: Ctx):
+    """The scheduler state records a task as started *before* the runner is asked to run it: an interrupt (or a failure of
+    submit_task itself) between the two must leave a task that is pending-and-not-running, never one that is running but
+    still pending - the drain after Ctrl-C would complete a task the state never started (KeyError), and the per-type
+    count would miss a process that already exists."""
+    st = roles.state(ctx)
+    for site in roles.submission_sites(ctx):
+        g = ctx.cfg(site.fn)
+        starts = [c for c in calls_in(site.fn.node) if st.start_method.qualname in ctx.P.resolve_call(c, site.fn)
+                  and c.args and same_expr(c.args[0], site.task_arg)]
+        if not starts:
+            starts = [c for c in calls_in(site.fn.node) if st.start_method.qualname in ctx.P.resolve_call(c, site.fn)]
+        ok = bool(starts) and any(g.dominates(g.primary(c), g.primary(site.call)) and g.primary(c) != g.primary(site.call) for c in starts)
+        yield ctx.ob('C14.START-BEFORE-SUBMIT', ok, site.fn, site.call, 'start_task(task) dominates submit_task(task)',
+                     '' if ok else 'the task is handed to the runner before the scheduler state marks it started: an interrupt between the two leaves a '
+                     'running task the state still holds as pending')
